@@ -479,6 +479,19 @@ def _add_post(a, b, w, pre, res):
              % (pre[0], pre[1], pre[4], w, got, exp))
     if not (res.edges == pre[0]):
         _rep("add-result-edges-differ", "result edges %r, operands' %r" % (res.edges, pre[0]))
+    # the sum is a new histogram: a scale it already carries must be its own integral (it would
+    # be returned by scale() and used by scale(s) without being recomputed)
+    cached = getattr(res, "_scale", None)
+    if cached is not None and view is not None and all(fin(c) for c in view[3]):
+        I, A, K, ok = integral_bounds(E, view[3])
+        if ok:
+            counters["evals_add_result_scale"] += 1
+            if not (fin(cached) and abs(Fraction(cached) - I) <= K * U * A):
+                _rep("add-result-carries-a-scale-that-is-not-its-integral",
+                     "histogram(%r, %r) [stored scale %r].add(histogram(.., %r), %r) returned a "
+                     "histogram with bins %r whose stored scale is %r, its integral is %r"
+                     % (pre[0], pre[1], getattr(a, "_scale", None), pre[4], w, view[3], cached,
+                        float(I)))
     if not (res.n_out_of_range == pre[2] + pre[5] * w):
         _rep("add-n_out_of_range-not-combined",
              "n_out_of_range %r + %r*%r gave %r" % (pre[2], w, pre[5], res.n_out_of_range))
